@@ -34,7 +34,7 @@ ASSUMPTIONS = ["CPython semantics of bytes.split/strip/startswith, str.strip, in
                "a newline in a mapped file name is printed by the kernel as \\012 and returned so (the kernel's escaping is not injective: observation)",
                "names begin with a non-blank byte (d_path output or pseudo-names); a leading ASCII blank is indistinguishable from the column padding",
                "a roll-up that is neither the sum of the listing nor a kernel-rounded one (Pss off by >= number of mappings kB) is compared with the model only"]
-EXHAUSTIVE = {"quick": "memory_percent: all 10 field names and 12 unknown names on every generated percent base (files + total memory)",
+EXHAUSTIVE = {"quick": "handles block (wave 8): copy.copy / copy.deepcopy x taken inside / outside an open oneshot() block x memory_full_info source (no roll-up support, ENOENT, ESRCH, roll-up) x kernel change yes / no = 32 histories, each asking memory_info, memory_full_info, memory_maps(grouped=False/True) of the copy, the original and a fresh Process outside every block, then inside and after the copy's own block; memory_percent: all 10 field names and 12 unknown names on every generated percent base (files + total memory)",
               "thorough": "same, 12x the random cases"}
 
 FIGS = {"Rss": "FRss", "Size": "FSize", "Pss": "FPss", "Shared_Clean": "FSharedClean", "Shared_Dirty": "FSharedDirty",
@@ -1285,7 +1285,7 @@ def _impl_run(case, coq, env):
 
 
 MANIFEST = {
-    "text": "Theorems (Coq, 31, no axioms): for every statm record memory_info is the seven page counts times the page size as pmem(rss, vms, shared, text, lib, "
+    "text": "Theorems (Coq, 34, no axioms): for every statm record memory_info is the seven page counts times the page size as pmem(rss, vms, shared, text, lib, "
             "data, dirty); the four namedtuple layouts of the code (dumped into coq/Gen/C13_Tables.v on every run) are the documented ones used by model "
             "and spec; for every kernel-formatted smaps listing (any number of mappings, any line set incl. all non-figure lines with arbitrary values, "
             "any path bytes) uss/pss/swap are the sums of the private/proportional/swapped kB over all mappings x 1024; a roll-up whose lines are the "
@@ -1296,7 +1296,9 @@ MANIFEST = {
             "(there / not there for whatever errno / permission denied: one row per record, in order; the behaviour before commit b718f0c is refuted); the grouped view has one row per distinct path, each "
             "field the sum over that path's mappings; memory_percent is 100*field/total for exactly the ten field names and ValueError for every "
             "other name (attribute-like names included) whatever the process state, and over every history of virtual_memory() calls and MemTotal changes "
-            "the denominator is the total reported by the last virtual_memory() call. The path decoding used before commit c15178c is kept as "
+            "the denominator is the total reported by the last virtual_memory() call; over every history of oneshot() blocks, copy.copy / copy.deepcopy, fresh "
+            "Process objects, kernel changes and accessor calls on any handle (coq/C13/Handles.v) a call made while no block is open answers from the kernel state "
+            "at call time (C13_handles_outside_blocks / _history / _memory). The path decoding used before commit c15178c is kept as "
             "clean_path_legacy and refuted by a witness. The model is tied to the code by running both on generated kernel files and on a "
             "malformed stream through the public API over a fake /proc.",
     "note": "Trusted: Coq kernel + vm_compute; hand-written model coq/C13/Model.v incl. the three regex scanners (tied by the correspondence run only); "
